@@ -1373,6 +1373,6 @@ class resize:
         else:
             yield "lines-keep-their-cells", forall(0, h, lambda r: forall(0, keep, lambda x: cell_eq(cell(s.term, r, x), cell(old.term, r, x))))
         yield "new-columns-are-blank", implies(h <= h0, forall(0, h, lambda r: forall(old.width, w, lambda x: cell_eq(cell(s.term, r, x), blank(old)))))
-        # FAILS-ON-TREE: TermCanvas(4, 5), cursor (1, 1), resize(6, 5) -> cursor (1, 4): the loops `for y in range(self.height)`
+        # failed before fix: commit 74c4a7d: TermCanvas(4, 5), cursor (1, 1), resize(6, 5) -> cursor (1, 4): the loops `for y in range(self.height)`
         # that adjust the width overwrite the saved cursor row `y`, so any change of width sends the cursor to the last row
         yield "cursor-stays-on-its-cell-where-it-still-exists", cursor_is(s, (imin(old.term_cursor[0], w - 1), imin(old.term_cursor[1], h - 1)))
